@@ -38,6 +38,10 @@ def run(ctx):
                              "case": recs[x[0]], "expected": x[2]} for x in rej], confirm=ctx.confirm_tv)
     n = 500 if ctx.quick else 12000
     s2 = ctx.tv("dec", "Trace_Decoder", {"seed": ctx.seed, "n": n, "mode": "c05"}, consts={"MaxD": 10000})
+    # "consequently UnmarshalRead equals Unmarshal": texts that fit a generated type except for one
+    # value, read whole and from readers that cut inside the run of delimiters and white space
+    # before that value - the same final error, offset and pointer (clause of Trace_Arshal)
+    ctx.tv("arshal", "Trace_Arshal", {"seed": ctx.seed, "n": 1500 if ctx.quick else 60000, "mode": "c16sem"}, consts={"MaxD": 10000})
     if s2.get("faults_delivered", 0) == 0:
         from common import MachineryError
         raise MachineryError("driver delivered no faults: vacuous")
